@@ -402,7 +402,9 @@ fn scanner(rec: &mut Rec, ctx: &Ctx, idx: u64, rng: &mut ChaCha20Rng) {
 // ---------------------------------------------------------------------------
 // M3 polynomial shape
 
-fn shape(rec: &mut Rec, _ctx: &Ctx, idx: u64, rng: &mut ChaCha20Rng, global: &Mutex<HashMap<Vec<u8>, u64>>) {
+type Triple = (Vec<u8>, Vec<u8>, u32);
+
+fn shape(rec: &mut Rec, _ctx: &Ctx, idx: u64, rng: &mut ChaCha20Rng, global: &Mutex<HashMap<Vec<u8>, Triple>>) {
   // groups of 4 consecutive cases share a base (measurement, epoch, threshold)
   // and differ in exactly one component (or in everything for the 4th)
   let mut g = case_rng(_ctx, "shape-group", idx / 4);
@@ -470,13 +472,16 @@ fn shape(rec: &mut Rec, _ctx: &Ctx, idx: u64, rng: &mut ChaCha20Rng, global: &Mu
       rec.violation("repeated-coefficient", format!("coefficient of x^{} repeats another coefficient of the same polynomial", d), rp(json!({})));
       return;
     }
+    // keyed on the actual (measurement, epoch, threshold): two generated cases may
+    // coincide (1-byte measurements, empty epochs), and then they ARE one sharing
+    let me: Triple = (m.clone(), e.clone(), t);
     let mut g = global.lock().unwrap();
-    if let Some(other) = g.insert(c.to_bytes_le(), idx) {
-      if other != idx {
+    if let Some(other) = g.insert(c.to_bytes_le(), me.clone()) {
+      if other != me {
         rec.violation(
           "coefficient-shared-across-measurements",
-          format!("coefficient of x^{} of sharing {} also occurs in sharing {} (different measurement / epoch / threshold)", d, idx, other),
-          rp(json!({"other_case": other})),
+          format!("coefficient of x^{} of the sharing of case {} also occurs in the sharing of a different (measurement, epoch, threshold)", d, idx),
+          rp(json!({"other_measurement": hex(&other.0), "other_epoch": hex(&other.1), "other_threshold": other.2})),
         );
         return;
       }
@@ -553,7 +558,7 @@ fn large_threshold(rec: &mut Rec, ctx: &Ctx, idx: u64, rng: &mut ChaCha20Rng) {
 pub fn run(ctx: &Ctx) -> Rec {
   let mut rec = par_run(ctx, "attacks", ctx.n(1200, 30_000), |rec, i, rng| attacks(rec, ctx, i, rng));
   rec.merge(par_run(ctx, "scanner", ctx.n(2000, 60_000), |rec, i, rng| scanner(rec, ctx, i, rng)));
-  let global: Mutex<HashMap<Vec<u8>, u64>> = Mutex::new(HashMap::new());
+  let global: Mutex<HashMap<Vec<u8>, Triple>> = Mutex::new(HashMap::new());
   // the shape stream includes deliberate neighbours: every 4 consecutive cases
   // share a measurement and differ in epoch or threshold only
   rec.merge(par_run(ctx, "shape", ctx.n(2400, 100_000), |rec, i, rng| shape(rec, ctx, i, rng, &global)));
